@@ -112,6 +112,7 @@ type program struct {
 	methods []*method
 	src     string
 	nOps    map[string]int
+	failKey string // key of a reference mismatch on this program (default ref-diff)
 }
 
 type call struct {
